@@ -19,16 +19,18 @@ vars == <<d, ext>>
 Disc == [hdfs : BOOLEAN,          \* sector 1 byte 6 bit 3
          aa2 : BOOLEAN,           \* sector 2 begins with eight 0xAA bytes
          start : StartClasses,    \* a catalogued file's 10-bit start sector (0: no file)
+         flen0 : BOOLEAN,         \* that file's length is zero (it still "starts there")
          spt18 : BOOLEAN,         \* sector 16 byte 3 = 18
          totok : BOOLEAN,         \* sector 16 total in {630, 720, 1440}
-         vols : {"none", "valid", "invalid"},   \* volumes listed in sector 16 and their catalogues
+         vols : {"none", "valid", "valid1", "invalid"},   \* volumes listed in sector 16 and their catalogues
+                                  \* (valid1: all valid, one of them of the minimum size, a single track)
          lastok : BOOLEAN,        \* the last sector the Opus table promises is present in the image
          cat0 : BOOLEAN,          \* sectors 0/1 hold a valid catalogue
          total : Totals]
 
 -----------------------------------------------------------------------------
 (* R *)
-ROpusTable(x) == x.spt18 /\ x.totok /\ x.vols = "valid" /\ x.lastok
+ROpusTable(x) == x.spt18 /\ x.totok /\ x.vols \in {"valid", "valid1"} /\ x.lastok
 RVariant(x) == IF x.hdfs THEN "HDFS"
                ELSE IF x.aa2 /\ x.start # 2 THEN "WDFS"
                ELSE IF ROpusTable(x) THEN "OPUS"
